@@ -9,6 +9,34 @@ SUBS = ["*", "plain", "html", "xhtml", "xml", "javascript", "css", "octet-stream
 SUFS = ["json", "ber", "der", "fastinfoset", "wbxml", "zip", "xml"]
 
 
+import re as _re
+
+_TOKEN = r"[!#$%&'*+\-.^_`|~0-9A-Za-z]+"
+_MEDIA = _re.compile((r"^%s/%s(?:[ \t]*;[ \t]*%s=(?:%s|\"(?:[^\"\\\\]|\\\\.)*\"))*$" % (_TOKEN, _TOKEN, _TOKEN, _TOKEN)).encode())
+_QVALUE = _re.compile(rb"^(?:0(?:\.[0-9]{0,3})?|1(?:\.0{0,3})?)$")
+
+
+def is_media_type(text):
+    """RFC 7231 3.1.1.1 media-type (parameters: token or quoted-string), a q parameter being an RFC 7231 5.3.1 qvalue"""
+    if not _MEDIA.match(text):
+        return False
+    for m in _re.finditer(rb";[ \t]*[qQ]=([^;]*)", text):
+        if not _QVALUE.match(m.group(1).strip()):
+            return False
+    return True
+
+
+# Texts that are not media types and that MediaType::parseRaw accepts (open finding C18-nonmedia-accepted: the scanner takes any
+# byte up to '+', ';' or ' ' for a subtype, matches known subtypes and suffixes as prefixes, takes a blank for a parameter
+# separator and anything strtod reads for a quality).  Named input by input: another accepted non-media-type text is not covered.
+NOT_MEDIA_ACCEPTED = [b"text/plainx=y", b"text/plaincharset=utf-8", b"text/plain a=b", b"text/plain;;;;a=b", b"text/;a=b", b"text//plain",
+                      b"text/pl ain", b"text/(plain)", b"text/pl\x01in", b"text/plain; =b", b"text/plain; a=;b=c", b"text/plain; a b=c",
+                      b"text/plain\r\nX-Evil: a=b", b"text/plain; q=0x1", b"text/plain; q=1e-1", b"text/plain; q= 0.5", b"text/plain; q=+0.5",
+                      b"text/plain; q=0.5a=b", b"text/plain; q=.5", b"text/plain; q=0.5555", b"application/xhtml+xmlfoo=1", b"text/ "]
+assert not any(is_media_type(w) for w in NOT_MEDIA_ACCEPTED)
+assert all(is_media_type(w) for w in [b"text/plain", b"application/json; charset=utf-8", b"text/html;q=0.5", b"a/b;c=\"d e\"", b"*/*; q=1.0"])
+
+
 class C18(Spec):
     pid = "C18"
     area = "mime"
@@ -27,7 +55,7 @@ class C18(Spec):
                    "rounding agree (the generator avoids ...5 third decimals)"]
 
     def gen(self, rng, tier):
-        cases = []
+        cases = ["M " + pv.hexs(w) for w in NOT_MEDIA_ACCEPTED]
         qi = 0
         for t in range(len(TYPES)):
             for s in range(len(SUBS)):
@@ -118,6 +146,9 @@ class C18(Spec):
         else:
             if o[1] == "ok" and pv.unhex(o[7]) != pv.unhex(t[1]):
                 return "toString of a parsed media type is not the text it was parsed from: %s" % impl
+            txt = pv.unhex(t[1])
+            if o[1] == "ok" and txt in NOT_MEDIA_ACCEPTED and not is_media_type(txt):
+                return "text that is not a media type (RFC 7231 grammar) was accepted instead of being rejected with 415: %r" % txt
         return None
 
     def nontrivial(self, case, impl):
